@@ -33,7 +33,14 @@ NOT_DECIDED = [
     "backup --dry-run through DryRunBackend in generic code: decided only via the DryRunBackend method rules (C15.c2)",
 ]
 TRUSTED = ["class-hierarchy treatment of dyn/generic WriteBackend receivers (complete for impls inside the analysed crates)",
-           "immutability of option structs reached through & references"]
+           "immutability of option structs reached through & references",
+           "guard evaluation: a switch is forced only if its condition is a function of one `append_only` field read (== Some(true), if let, matches!, "
+           "unwrap_or, is_some/is_none, bool predicate methods whose body is such an expression) - every repository has a single ConfigFile, so "
+           "which object the field is read from is not tracked",
+           "guard helpers: a Result-returning function counts as a guard only if, with the field forced, every reachable assignment of its return "
+           "place is Err(..) (or the result of another such helper)",
+           "dry-run clause: loops and terminal iterator consumers over a Vec created in the same body and filled only at blocks unreachable "
+           "under dry_run = true are treated as not executing their body"]
 ASSUMPTIONS = ["entry points = pub functions reachable from the crate root of rustic_core, excluding the raw storage-layer "
                "traits (WriteBackend, DecryptWriteBackend and their impls), which are below the append-only check by design"]
 
